@@ -92,8 +92,9 @@ package sql
 //@   requires forall s *an.Struct, i int :: is(s, *an.Struct) && 0 <= i && i < len(s.Fields) ==> s.Fields[i].Field != nil
 //@   ensures len(colTypes) == len(ta.Columns) && (forall i int :: 0 <= i && i < len(ta.Columns) ==> colTypes[i] == "\t" + createStmt(ta.Columns[i], ta.Primary() == i))
 //@   ensures tableName == gen.SQLTableName(ta.TableName())
-//@   callarg fmt.Sprintf@2 1 gen.SQLTableName(ta.TableName())
-//@   callarg fmt.Sprintf@2 2 strings.Join(colTypes, ",\n")
+//@   callverb fmt.Sprintf "CREATE TABLE %s (" gen.SQLTableName(ta.TableName())
+//@   callverb fmt.Sprintf "( %s );" strings.Join(colTypes, ",\n")
+//@   callverb fmt.Sprintf "ALTER TABLE %s ADD CONSTRAINT" gen.SQLTableName(ta.TableName())
 //@   loop ta.Columns.1 index n
 //@   loop ta.Columns.1 invariant len(colTypes) == len(ta.Columns) && (forall i int :: 0 <= i && i < n ==> colTypes[i] == "\t" + createStmt(ta.Columns[i], ta.Primary() == i))
 //@   loop ta.Columns.1 invariant fresh(colTypes) && allocated(colTypes)
@@ -107,10 +108,12 @@ package sql
 //@   props C08
 //@   nosafety
 //@   ensures len(result) == 2
-//@   callarg fmt.Sprintf@1 1 gen.SQLTableName(ta.TableName())
-//@   callarg fmt.Sprintf@1 2 column.Field.Field.Name()
-//@   callarg fmt.Sprintf@2 1 gen.SQLTableName(ta.TableName())
-//@   callarg fmt.Sprintf@2 2 column.Field.Field.Name()
+//@   callverb fmt.Sprintf "ALTER TABLE %s ALTER COLUMN" gen.SQLTableName(ta.TableName())
+//@   callverb fmt.Sprintf "ALTER COLUMN %s SET DEFAULT" column.Field.Field.Name()
+//@   callverb fmt.Sprintf "SET DEFAULT %s;" value
+//@   callverb fmt.Sprintf "ALTER TABLE %s ADD CHECK(" gen.SQLTableName(ta.TableName())
+//@   callverb fmt.Sprintf "ADD CHECK(%s =" column.Field.Field.Name()
+//@   callverb fmt.Sprintf "= %s);" value
 
 // ---------------------------------------------------------------- C08: the composition in Generate
 // type invariant of the analysed structs (established by package analysis, a precondition here)
